@@ -1057,6 +1057,9 @@ func main() {
 	res.Count("ms_sequential_phase", int(st.tSeq/time.Millisecond))
 	res.Count("ms_concurrent_phase", int(st.tConc/time.Millisecond))
 	res.Count("ms_teardown", int(st.tDown/time.Millisecond))
+	if only < 0 {
+		runExtras(res)
+	}
 	res.Count("lines_dispatched", st.lines)
 	res.Count("lines_concurrent_phase", st.concLines)
 	res.Count("lines_invalid", st.invalid)
